@@ -660,7 +660,10 @@ func (mgr *Manager) importPcapJob(filenames []string, nextStreamID uint64, exist
 			mgr.resetStreamsDuringTaggingJob.Or(*resetStreams)
 			mgr.addedStreamsDuringTaggingJob.Or(*addedStreams)
 			mgr.invalidateTags(*updatedStreams, *resetStreams, *addedStreams)
-			mgr.invalidateConverters(updatedStreams)
+			// reset streams got new data too, just at the front
+			changedStreams := updatedStreams.Copy()
+			changedStreams.Or(*resetStreams)
+			mgr.invalidateConverters(&changedStreams)
 		}
 		// remove finished job from queue
 		mgr.importJobs = mgr.importJobs[processedFiles:]
